@@ -14,7 +14,16 @@ Oracle on the implementation (independent of the model):
   (c) non-interference: for every simulation of the world, a shadow world in which only
       that simulation's own lineage of operations is executed (separately built, cloned at
       the same points) shows, at every step, exactly what the simulation shows in the
-      interleaved run.
+      interleaved run;
+  (d) a clone is as good as its source: the lineage executed on ONE simulation that is never
+      cloned gives the same answers and the same stored values (trace flag apart).
+
+A second, oracle-only stream (not sent to the Coq model, which has no set_input rules and no
+Enum / str / date values) runs the same oracle on a directly built system: variables with
+set_input_divide_by_period / set_input_dispatch_by_period where the array handed to set_input
+IS an array object read from the cache that original and clone share, with some sub-periods
+already set; Enum / str / date inputs kept in memory or on disk, cloned, and read through a
+formula comparing them with an Enum member, a string and a date on every side.
 """
 from __future__ import annotations
 
@@ -46,7 +55,13 @@ RULE = ("random rule systems (3-6 variables of coq/model/Engine.v's expression l
         "the same variable and period), trace toggles, an optional second clone; a `lazy` third of the cases looks "
         "at nothing before the first clone (holders are created lazily).  A case is non-trivial when, after a "
         "clone, at least two simulations each ran a state-changing operation and the final states of two "
-        "simulations differ; distinct by JSON text")
+        "simulations differ; distinct by JSON text.  Oracle-only stream (160 cases quick, not compared with the model): "
+        "a directly built system with float/int variables using set_input_divide_by_period / "
+        "set_input_dispatch_by_period, an Enum, a str and a date input and formulas comparing them with an Enum "
+        "member / string / date; memory or forced on-disk storage with random priority variables; the original is "
+        "populated (some months of the rule variables pre-set), cloned, then both sides get set_input calls whose "
+        "value IS the array object returned by calculate / get_array (shared between the sides), further inputs, "
+        "deletions, calculations, an optional second clone, and a final read of the formula on every side")
 TRUSTED = ["harness/rules.py: compiler from rule-system terms to real Variable subclasses (formulas call the public API)",
            "harness/c13.py: reading of Holder/Simulation attributes (_memory_storage, _disk_storage, invalidated_caches, "
            "tracer, population back-pointers) for the identity part of the oracle"]
@@ -176,7 +191,9 @@ def gen_case(rng, k):
 
 def generate(rng, tier):
     n = {"quick": 360, "escalated": 800, "thorough": 8000}[tier]
-    return [gen_case(rng, k) for k in range(n)]
+    cases = [gen_case(rng, k) for k in range(n)]
+    m = {"quick": 160, "escalated": 400, "thorough": 3000}[tier]
+    return cases + [gen_typed_case(rng, k) for k in range(m)]
 
 
 # ---------------------------------------------------------------------------------------
@@ -201,8 +218,30 @@ def pop_obs(sim):
     return [int(hh.count), [int(x) for x in hh.members_entity_id], roles]
 
 
-def sim_obs(sim, sys):
-    return [rules.cache_obs(sim, sys), inv_obs(sim), bool(sim.trace), pop_obs(sim)]
+class RuleDriver:
+    """cases over the rule systems of harness/rules.py (these also go to the Coq model)"""
+
+    def __init__(self, case):
+        self.case = case
+        self.sys = case["sys"]
+        self.switches = set(self.sys.get("switches", []))
+        self.tbs = rules.build_system(self.sys, self.switches)
+
+    def build(self):
+        return rules.build_simulation(self.tbs, self.case["pop"], self.case.get("cfg") or {}, self.sys)
+
+    def cache(self, sim):
+        return rules.cache_obs(sim, self.sys)
+
+    def obs(self, sim):
+        return [self.cache(sim), inv_obs(sim), bool(sim.trace), pop_obs(sim)]
+
+    def request(self, sim, req):
+        return rules.do_request(sim, self.sys, self.switches, req)
+
+
+def driver_for(case):
+    return TypedDriver(case) if case.get("kind") == "typed" else RuleDriver(case)
 
 
 def structure(sim):
@@ -218,7 +257,7 @@ def structure(sim):
     return out
 
 
-def clone_checks(orig, new, sys, step):
+def clone_checks(orig, new, drv, step):
     """parts (a) and (b) of the oracle, evaluated right after `new = orig.clone()`"""
     bad = []
 
@@ -227,7 +266,7 @@ def clone_checks(orig, new, sys, step):
             bad.append(f"step {step}: {what}")
 
     # (a)
-    need(rules.cache_obs(orig, sys) == rules.cache_obs(new, sys), "clone-equal: caches differ right after clone")
+    need(drv.cache(orig) == drv.cache(new), "clone-equal: caches differ right after clone")
     need(structure(orig) == structure(new), "clone-equal: entity structure differs right after clone")
     need(inv_obs(orig) == inv_obs(new), "clone-equal: invalidated_caches differ right after clone")
     need(new.max_spiral_loops == orig.max_spiral_loops and new.opt_out_cache == orig.opt_out_cache
@@ -267,11 +306,11 @@ def clone_checks(orig, new, sys, step):
     return bad
 
 
-def _apply(sims, sys, switches, op):
+def _apply(sims, drv, op):
     """runs one operation on the list of simulations; returns the answer"""
     if op[0] == "on":
         try:
-            return rules.do_request(sims[op[1]], sys, switches, op[2])
+            return drv.request(sims[op[1]], op[2])
         except rules.Inexact:
             raise
         except Exception as e:  # noqa: BLE001
@@ -303,20 +342,29 @@ def lineage(ops, target):
     return chain, created, n
 
 
-def shadow(case, target, steps, dirs):
-    """part (c): run only the lineage of `target` on separately built simulations and compare, at
-    every step, with what the interleaved run showed for the same simulation"""
-    sys, pop, cfg, ops = case["sys"], case["pop"], case.get("cfg") or {}, case["ops"]
+def _untraced(o):
+    return [x for i, x in enumerate(o) if i != 2]
+
+
+def shadow(case, target, steps, dirs, clone_free=False):
+    """part (c): run only the lineage of `target` on separately built simulations (cloned at the
+    same points) and compare, at every step, with what the interleaved run showed for the same
+    simulation.  With clone_free (part (d)) the lineage is run on ONE simulation that is never
+    cloned: a clone must be as good as the simulation it was taken from (trace flag apart)."""
+    ops = case["ops"]
     chain, created, _ = lineage(ops, target)
-    switches = set(sys.get("switches", []))
-    tbs = rules.build_system(sys, switches)
-    sim = rules.build_simulation(tbs, pop, cfg, sys)
+    if clone_free and len(chain) == 1:
+        return None
+    drv = driver_for(case)
+    sim = drv.build()
     keep = [sim]
     pos = 0
     quiet = bool(case.get("lazy"))
     if not quiet:
-        rules.cache_obs(sim, sys)
+        drv.cache(sim)
     last = None
+    what = "clone-unfaithful" if clone_free else "interference"
+    alone = ("on a simulation that was never cloned" if clone_free else "operated alone")
     try:
         for k, op in enumerate(ops):
             cur = chain[pos]
@@ -324,56 +372,56 @@ def shadow(case, target, steps, dirs):
             if op[0] == "clone":
                 quiet = False
                 if pos + 1 < len(chain) and created[chain[pos + 1]] == k:
-                    sim = sim.clone(trace=bool(op[2]))
-                    keep.append(sim)
+                    if clone_free:
+                        sim.trace = bool(op[2])
+                    else:
+                        sim = sim.clone(trace=bool(op[2]))
+                        keep.append(sim)
                     pos += 1
                     cur = chain[pos]
                     applied = True
             elif op[1] == cur:
-                ans = _apply([sim] * (cur + 1), sys, switches, op)
+                ans = _apply([sim] * (cur + 1), drv, op)
                 applied = True
                 if ans != steps[k][0]:
-                    return (f"interference: simulation {target}: answer of step {k} {op} is {steps[k][0]!r} in the "
-                            f"interleaved run and {ans!r} when simulation {target} is operated alone")
+                    return (f"{what}: simulation {target}: answer of step {k} {op} is {steps[k][0]!r} in the "
+                            f"interleaved run and {ans!r} {alone}")
             if quiet:
                 continue
             if applied or last is None:
-                last = sim_obs(sim, sys)
+                last = drv.obs(sim)
             seen = steps[k][1][cur]
-            if last != seen:
-                return (f"interference: simulation {cur} (lineage of {target}) after step {k} {op}: interleaved run "
-                        f"shows {seen!r}, operated alone it shows {last!r}")
+            if (_untraced(last) != _untraced(seen)) if clone_free else (last != seen):
+                return (f"{what}: simulation {cur} (lineage of {target}) after step {k} {op}: interleaved run "
+                        f"shows {seen!r}, {alone} it shows {last!r}")
         return None
     finally:
         _dirs(keep, dirs)
 
 
 def _run(case, dirs):
-    sys, pop, cfg = case["sys"], case["pop"], case.get("cfg") or {}
-    switches = set(sys.get("switches", []))
-    tbs = rules.build_system(sys, switches)
-    sims = [rules.build_simulation(tbs, pop, cfg, sys)]
+    drv = driver_for(case)
+    sims = [drv.build()]
     quiet = bool(case.get("lazy"))
     steps, checks = [], []
     try:
         if not quiet:
-            rules.cache_obs(sims[0], sys)
+            drv.cache(sims[0])
         for k, op in enumerate(case["ops"]):
             if op[0] == "clone":
                 sims.append(sims[op[1]].clone(trace=bool(op[2])))
                 quiet = False
-                checks += clone_checks(sims[op[1]], sims[-1], sys, k)
+                checks += clone_checks(sims[op[1]], sims[-1], drv, k)
                 ans = None
             else:
-                ans = _apply(sims, sys, switches, op)
+                ans = _apply(sims, drv, op)
             if any(len(s.tracer.stack) != 0 for s in sims):
                 checks.append(f"step {k}: stack: evaluation stack not empty between operations")
-            steps.append([ans, None if quiet else [sim_obs(s, sys) for s in sims]])
+            steps.append([ans, None if quiet else [drv.obs(s) for s in sims]])
         inter = None
-        for target in range(len(sims)):
-            inter = shadow(case, target, steps, dirs)
-            if inter:
-                break
+        for clone_free in (False, True):
+            for target in range(len(sims)):
+                inter = inter or shadow(case, target, steps, dirs, clone_free)
         return {"steps": steps, "checks": checks, "interference": inter}
     finally:
         _dirs(sims, dirs)
@@ -393,6 +441,259 @@ def run_impl(case):
                 gc.collect()      # OnDiskStorage.__del__ removes its own directory first
             for d in dirs:
                 shutil.rmtree(d, ignore_errors=True)
+
+
+# ---------------------------------------------------------------------------------------
+# oracle-only stream: set_input rules, Enum / str / date values, on-disk stores
+# (coq/model/Engine.v has no set_input rules and no such value types: these cases are not
+#  sent to the model; oracle parts (a)-(d) are evaluated as for every other case)
+# ---------------------------------------------------------------------------------------
+
+from openfisca_core import holders as _holders, indexed_enums as _enums, periods as _periods  # noqa: E402
+from openfisca_core.entities import build_entity as _build_entity  # noqa: E402
+from openfisca_core.experimental import MemoryConfig as _MemoryConfig  # noqa: E402
+from openfisca_core.populations import ADD as _ADD  # noqa: E402
+from openfisca_core.simulations import SimulationBuilder as _SimulationBuilder  # noqa: E402
+from openfisca_core.taxbenefitsystems import TaxBenefitSystem as _TaxBenefitSystem  # noqa: E402
+from openfisca_core.variables import Variable as _Variable  # noqa: E402
+import datetime as _datetime  # noqa: E402
+
+_Person = _build_entity(key="person", plural="persons", label="", is_person=True)
+
+
+class Housing(_enums.Enum):
+    owner = "Owner"
+    tenant = "Tenant"
+    free = "Free lodger"
+
+
+def _typed_variables():
+    class income(_Variable):
+        value_type = float
+        entity = _Person
+        definition_period = _periods.DateUnit.YEAR
+
+    class salary(_Variable):
+        value_type = float
+        entity = _Person
+        definition_period = _periods.DateUnit.MONTH
+        set_input = _holders.set_input_divide_by_period
+
+    class bonus(_Variable):
+        value_type = float
+        entity = _Person
+        definition_period = _periods.DateUnit.MONTH
+        set_input = _holders.set_input_dispatch_by_period
+
+    class hours(_Variable):
+        value_type = int
+        entity = _Person
+        definition_period = _periods.DateUnit.MONTH
+        set_input = _holders.set_input_divide_by_period
+
+    class rent(_Variable):
+        value_type = float
+        entity = _Person
+        definition_period = _periods.DateUnit.MONTH
+
+    class housing(_Variable):
+        value_type = _enums.Enum
+        possible_values = Housing
+        default_value = Housing.owner
+        entity = _Person
+        definition_period = _periods.DateUnit.MONTH
+
+    class name(_Variable):
+        value_type = str
+        entity = _Person
+        definition_period = _periods.DateUnit.ETERNITY
+
+    class birth(_Variable):
+        value_type = _datetime.date
+        entity = _Person
+        definition_period = _periods.DateUnit.ETERNITY
+
+    class benefit(_Variable):
+        value_type = float
+        entity = _Person
+        definition_period = _periods.DateUnit.MONTH
+
+        def formula(person, period):
+            tenant = person("housing", period) == Housing.tenant
+            free = person("housing", period) == Housing.free
+            bob = person("name", period) == "bob"
+            old = person("birth", period) < numpy.datetime64("1990-01-01")
+            return tenant * person("rent", period) * 0.5 + free * 7 + bob * 1 + old * 2
+
+    class total(_Variable):
+        value_type = float
+        entity = _Person
+        definition_period = _periods.DateUnit.YEAR
+
+        def formula(person, period):
+            return (person("income", period) + person("salary", period, options=[_ADD])
+                    + person("bonus", period, options=[_ADD]))
+
+    return [income, salary, bonus, hours, rent, housing, name, birth, benefit, total]
+
+
+TYPED_NAMES = ["income", "salary", "bonus", "hours", "rent", "housing", "name", "birth", "benefit", "total"]
+
+
+def canon(a):
+    """array -> plain data that tells an EnumArray from bare indices"""
+    if a is None:
+        return None
+    if isinstance(a, _enums.EnumArray):
+        return ["enum", [str(x) for x in a.decode_to_str()]]
+    a = numpy.asarray(a)
+    if a.ndim == 0:
+        a = a.reshape(1)
+    k = a.dtype.kind
+    if k == "f":
+        return ["f", [float(x) for x in a.tolist()]]
+    if k in "iu":
+        return ["i", [int(x) for x in a.tolist()]]
+    if k == "b":
+        return ["b", [bool(x) for x in a.tolist()]]
+    if k == "M":
+        return ["d", [str(x) for x in a.astype("datetime64[D]")]]
+    return ["s", [str(x) for x in a.tolist()]]
+
+
+class TypedDriver:
+    def __init__(self, case):
+        self.case = case
+        self.tbs = _TaxBenefitSystem([_Person])
+        for v in _typed_variables():
+            self.tbs.add_variable(v)
+
+    def build(self):
+        cfg = self.case.get("cfg") or {}
+        sim = _SimulationBuilder().build_default_simulation(self.tbs, count=self.case["count"])
+        if cfg.get("disk"):
+            sim.memory_config = _MemoryConfig(max_memory_occupation=0,
+                                              priority_variables=list(cfg.get("priority", [])))
+        if cfg.get("trace"):
+            sim.trace = True
+        return sim
+
+    def cache(self, sim):
+        out = []
+        for name in TYPED_NAMES:
+            holder = sim.get_holder(name)
+            for p in sorted(holder.get_known_periods(), key=str):
+                out.append([name, str(p), canon(holder.get_array(p))])
+        return out
+
+    def obs(self, sim):
+        inv = sorted([str(c.variable), str(c.period)] for c in sim.invalidated_caches)
+        return [self.cache(sim), inv, bool(sim.trace), [int(sim.persons.count)]]
+
+    def request(self, sim, req):
+        kind = req[0]
+        if kind == "set":
+            sim.set_input(req[1], req[2], req[3])
+            return None
+        if kind == "setfrom":
+            # the value handed to set_input IS an array object read from the cache
+            src = sim.calculate(req[3], req[4]) if req[5] == "calc" else sim.get_array(req[3], req[4])
+            if src is None:
+                return "no-source"
+            sim.set_input(req[1], req[2], src)
+            return None
+        if kind == "calc":
+            return canon(sim.calculate(req[1], req[2]))
+        if kind == "add":
+            return canon(sim.calculate_add(req[1], req[2]))
+        if kind == "get":
+            return canon(sim.get_array(req[1], req[2]))
+        if kind == "delete":
+            sim.delete_arrays(req[1], req[2])
+            return None
+        raise AssertionError(req)
+
+
+def _typed_value(rng, name, n):
+    if name == "housing":
+        return [rng.choice(["owner", "tenant", "tenant", "free"]) for _ in range(n)]
+    if name == "name":
+        return [rng.choice(["bob", "alice", "bob", ""]) for _ in range(n)]
+    if name == "birth":
+        return [rng.choice(["1980-05-17", "1995-01-01", "1989-12-31", "1990-01-01"]) for _ in range(n)]
+    if name == "hours":
+        return [rng.choice([0, 120, 1440, 1800]) for _ in range(n)]
+    return [float(rng.choice([0, 600, 1200, 12000, 24000, 36000.5])) for _ in range(n)]
+
+
+def _typed_request(rng, n, year):
+    month = lambda: f"{year}-{rng.choice([1, 1, 2, 3, 12]):02d}"  # noqa: E731
+    r = rng.random()
+    if r < 0.22:
+        # feed a cached array back as an input of a variable with a set_input rule
+        dst = rng.choice(["salary", "salary", "bonus"])
+        src, sp = rng.choice([("income", str(year)), ("income", str(year)), ("total", str(year)), ("rent", month()),
+                              ("salary", month()), ("benefit", month())])
+        dp = rng.choice([str(year), str(year), f"month:{year}-01:3", month()])
+        return ["setfrom", dst, dp, src, sp, rng.choice(["calc", "calc", "get"])]
+    if r < 0.30:
+        return ["setfrom", "rent", month(), rng.choice(["rent", "salary", "bonus"]), month(), "get"]
+    if r < 0.55:
+        name = rng.choice(["income", "salary", "salary", "bonus", "hours", "rent", "housing", "housing", "name", "birth"])
+        if name == "income":
+            p = str(year)
+        elif name in ("name", "birth"):
+            p = "eternity"
+        elif name in ("salary", "bonus", "hours") and rng.random() < 0.4:
+            p = rng.choice([str(year), f"month:{year}-01:3"])
+        else:
+            p = month()
+        return ["set", name, p, _typed_value(rng, name, n)]
+    if r < 0.75:
+        name = rng.choice(["benefit", "benefit", "total", "housing", "salary", "name"])
+        return ["calc", name, str(year) if name == "total" else month()]
+    if r < 0.82:
+        return ["add", rng.choice(["benefit", "salary", "bonus"]), str(year)]
+    if r < 0.92:
+        name = rng.choice(TYPED_NAMES)
+        return ["get", name, str(year) if name in ("income", "total") else month()]
+    name = rng.choice(["salary", "benefit", "total", "housing", "rent", "income"])
+    return ["delete", name, rng.choice([None, str(year), month()])]
+
+
+def gen_typed_case(rng, k):
+    n = rng.randint(1, 3)
+    year = rng.choice([2017, 2018])
+    disk = k % 2 == 0
+    cfg = {"trace": rng.random() < 0.2}
+    if disk:
+        cfg.update({"disk": True, "priority": [v for v in TYPED_NAMES if rng.random() < 0.25]})
+    ops = []
+    # a populated original: inputs of every type, some months of the rule variables, often a result
+    ops.append(["on", 0, ["set", "income", str(year), _typed_value(rng, "income", n)]])
+    for name in ("housing", "rent", "salary", "bonus"):
+        for m in sorted(rng.sample([1, 2, 3, 12], rng.randint(0, 2))):
+            ops.append(["on", 0, ["set", name, f"{year}-{m:02d}", _typed_value(rng, name, n)]])
+    for name in ("name", "birth"):
+        if rng.random() < 0.8:
+            ops.append(["on", 0, ["set", name, "eternity", _typed_value(rng, name, n)]])
+    if rng.random() < 0.5:
+        ops.append(["on", 0, rng.choice([["calc", "benefit", f"{year}-01"], ["calc", "total", str(year)],
+                                          ["calc", "income", str(year)]])])
+    nsims = 1
+    ops.append(["clone", 0, rng.random() < 0.3])
+    nsims += 1
+    for _ in range(rng.randint(3, 8)):
+        ops.append(["on", rng.randrange(nsims), _typed_request(rng, n, year)])
+    if rng.random() < 0.4:
+        ops.append(["clone", rng.randrange(nsims), False])
+        nsims += 1
+        for _ in range(rng.randint(2, 5)):
+            ops.append(["on", rng.randrange(nsims), _typed_request(rng, n, year)])
+    # both sides finally read what depends on the typed inputs
+    for i in range(nsims):
+        ops.append(["on", i, ["calc", "benefit", f"{year}-{rng.choice([1, 2, 3]):02d}"]])
+    return {"kind": "typed", "count": n, "cfg": cfg, "lazy": k % 3 == 2, "ops": ops}
 
 
 # ---------------------------------------------------------------------------------------
@@ -416,7 +717,7 @@ def cop(op):
 
 
 def coq_case(case):
-    if _key(case) in _SKIP:
+    if case.get("kind") == "typed" or _key(case) in _SKIP:
         return "CSkip"
     cfg = case.get("cfg") or {}
     return (f"(CWorld {rules.csys(case['sys'], cfg)} {rules.cpop(case['pop'])} "
@@ -425,6 +726,8 @@ def coq_case(case):
 
 
 def obs_for_coq(case, obs):
+    if case.get("kind") == "typed":
+        return "skip" if isinstance(obs, dict) else obs    # not sent to the model (CSkip)
     if isinstance(obs, dict):
         return obs["steps"]
     return obs
@@ -445,7 +748,7 @@ def oracle(case, obs):
     return None
 
 
-CHANGING = ("set", "delete", "calc", "add", "div")
+CHANGING = ("set", "setfrom", "delete", "calc", "add", "div")
 
 
 def nontrivial(case, obs):
@@ -469,7 +772,12 @@ def classify(case, obs):
         return "driver-error"
     cfg = case.get("cfg") or {}
     tags = ["disk" if cfg.get("disk") else "memory"]
-    tags.append("spiral" if not rules.is_ranked(case["sys"]) else "ranked")
+    if case.get("kind") == "typed":
+        tags.append("typed")
+        if any(o[0] == "on" and o[2][0] == "setfrom" for o in case["ops"]):
+            tags.append("cached-array-as-input")
+    else:
+        tags.append("spiral" if not rules.is_ranked(case["sys"]) else "ranked")
     nclone = sum(1 for o in case["ops"] if o[0] == "clone")
     tags.append(f"{nclone + 1}sims")
     first = next(k for k, o in enumerate(case["ops"]) if o[0] == "clone")
